@@ -194,3 +194,14 @@ hostile!(c10_t_hostile_x_w0, hostile_write, Pat::X, 0, 0);
 hostile!(c10_t_hostile_kx_w1, hostile_write, Pat::KX, 0, 1);
 hostile!(c10_t_hostile_nnpsk0_r0, hostile_read, Pat::NN, 1, 0);
 hostile!(c10_t_hostile_ix_r1, hostile_read, Pat::IX, 0, 1);
+
+#[kani::proof]
+#[kani::unwind(20)]
+pub fn c10_q_hostile_transport_read() {
+    c14_q_transport_read();
+}
+#[kani::proof]
+#[kani::unwind(20)]
+pub fn c10_q_hostile_transport_write() {
+    c14_q_transport_write();
+}
